@@ -208,12 +208,21 @@ class Check:
     # ------------------------------------------------------------------ verdicts
     def violation(self, sig, what, replay_obj):
         """Register a reproduced disagreement between the code and the property-level specification."""
-        if sig in self.violations or sig in self.known_hits:
-            (self.violations.get(sig) or self.known_hits.get(sig))["count"] += 1
+        alias = getattr(self, "known_alias", {}).get(sig)
+        if sig in self.violations or sig in self.known_hits or alias:
+            (self.violations.get(sig) or self.known_hits.get(sig) or self.known_hits.get(alias))["count"] += 1
             return
         for k in load_known():
-            if k.get("property") == self.pid and k.get("status") == "open" and k.get("sig") == sig:
-                self.known_hits[sig] = {"what": k.get("what", what), "count": 1}
+            ks = k.get("sig", "")
+            if k.get("property") == self.pid and k.get("status") == "open" and (ks == sig or (ks.endswith("*") and sig.startswith(ks[:-1]))):
+                # one KNOWN-FINDING line per listed finding (its own sig), however many concrete variants matched it
+                if ks in self.known_hits:
+                    self.known_hits[ks]["count"] += 1
+                    self.known_hits[ks].setdefault("variants", set()).add(sig)
+                else:
+                    self.known_hits[ks] = {"what": k.get("what", what), "count": 1, "variants": {sig}}
+                self.known_alias = getattr(self, "known_alias", {})
+                self.known_alias[sig] = ks
                 return
         rdir = os.path.join(VERIF, "replay", self.pid)
         os.makedirs(rdir, exist_ok=True)
@@ -228,7 +237,7 @@ class Check:
             "property_id": self.pid, "tier": self.tier, "seed": self.seed, "level": level,
             "coverage": self.cov, "assumptions": self.assumptions, "wall_s": round(time.time() - self.t0, 2),
             "violations": len(self.violations),
-            "known_findings_hit": [{"sig": s, **v} for s, v in self.known_hits.items()],
+            "known_findings_hit": [{"sig": s, **{k: (sorted(x) if isinstance(x, set) else x) for k, x in v.items()}} for s, v in self.known_hits.items()],
             "hooks": self.hooks, "notes": self.notes,
         }
         os.makedirs(os.path.join(VERIF, "evidence"), exist_ok=True)
